@@ -1564,3 +1564,101 @@ Proof.
         split; [eapply ProofsEnum.st_le_trans; [exact (proj1 HI)|exact Hle1|exact F3]|].
         constructor; [eapply Rmsg_m_mono; eauto|assumption].
 Qed.
+
+(* ---------------- projection of any message of the fragment ---------------- *)
+Lemma proj_message_m : forall names es env st m m',
+  mmessage es names m -> (forall s, In s (m_signals m) -> enum_wf (e_of es s)) ->
+  (forall s, In s (m_signals m) ->
+     desc_of key_eqb (u32 (m_canid m), clear (s_name s)) (ie_sig_desc env) = s_desc s /\
+     (s_kind s = KStandard -> lookup key_eqb (u32 (m_canid m), clear (s_name s)) (ie_sig_enums env) = None)) ->
+  Rmsg_m es env st m m' -> proj_message (is_enums st) m' = proj_message es m.
+Proof.
+  intros names es env st m m' Hmm Hwf Henv [[Hnm HR]|[mx [mid [gs [S' [Hmx [Hmxm [-> [HpS [Hmid Hgs]]]]]]]]]].
+  - destruct (mmessage_plain es names m Hmm Hnm) as [Hem _]. eapply proj_message_e; eauto.
+  - pose proof Hmm as [Ha [Hc [Hdl [Hsd [Hst [Hid [Hsz [Hms [Hlay [Hsn [Hrc [Hrn Hre]]]]]]]]]]]].
+    pose proof Hms as [_ [_ [_ [_ [_ [_ Hstd]]]]]].
+    assert (Henv1 : forall s, In s (m_signals m) -> is_muxb s = false ->
+              lookup key_eqb (u32 (m_canid m), clear (s_name s)) (ie_sig_enums env) = None /\
+              desc_of key_eqb (u32 (m_canid m), clear (s_name s)) (ie_sig_desc env) = s_desc s).
+    { intros s Hs Hn. destruct (Henv s Hs) as [Hd Hl]. split; [apply Hl; exact (Hstd mx s Hmx Hmxm Hs Hn)|exact Hd]. }
+    unfold proj_message.
+    cbn [m_canid m_name m_size m_order m_cycle m_delay m_startdelay m_sendtype m_sender m_receivers m_desc m_attrs m_signals].
+    rewrite Ha, Hc, Hdl, Hsd, Hst, !clear_spaces_idem.
+    rewrite (proj_sigs_mux es env names m mx mid gs S' Hmm Hmx Hmxm Henv1 HpS Hmid (is_enums st)).
+    assert (Hne : m_signals m <> []) by (intros E; rewrite E in Hmx; destruct Hmx).
+    assert (Hr : mux_result es env m mx mid gs S' <> []).
+    { unfold mux_result. intros E. apply app_eq_nil in E. destruct E as [_ E]. discriminate E. }
+    destruct (mux_result es env m mx mid gs S') eqn:ER; [contradiction|].
+    destruct (m_signals m) eqn:ES; [contradiction|].
+    assert (Hrecs : sort_by str_ltb (map clear (recs_in m)) = sort_by str_ltb (map clear (m_receivers m))).
+    { unfold recs_in. rewrite ES.
+      rewrite map_map. rewrite (map_ext (fun x => clear (clear x)) clear) by (intros; apply clear_spaces_idem).
+      apply sort_str_perm_eq. apply Permutation_map. apply Permutation_sym. apply sort_by_perm. }
+    rewrite Hrecs. reflexivity.
+Qed.
+
+(* ---------------- the theorem ---------------- *)
+Theorem export_import_mux_thm : forall b, mbus b ->
+  exists b', export_import b = Ok b' /\ proj_bus b' = proj_bus b.
+Proof.
+  intros b Hb. pose proof Hb as [Ha [Hn [Hnn [Hdm [Hlen [Hm [Hcan [Hpair [Hg Hes]]]]]]]]].
+  pose proof (mbus_keyed b Hb) as Hkb.
+  destruct (export_m b Hb) as [L HE]. unfold export_import. rewrite HE.
+  unfold text_roundtrip, mdoc. cbn [d_filename d_nodes d_valtables d_messages d_comments d_attrs d_attrdefs d_attrvals d_valencs d_extmuxes map].
+  unfold import. cbn [d_filename d_nodes d_valtables d_messages d_comments d_attrs d_attrdefs d_attrvals d_valencs d_extmuxes].
+  rewrite import_comments_spec, (gdesc_doc b Hkb).
+  destruct (tables_ok (b_enums b) L [] Hes) as [reg [T1 T2]]. cbn [app] in T1. rewrite T1. cbn [bind].
+  destruct (valencs_ok (length reg) (bus_vencs b) reg []) as [new [se' [V1 V2]]].
+  { apply Forall_forall. intros ve Hin. apply in_bus_vencs in Hin. destruct Hin as [m [s [_ [_ [_ ->]]]]].
+    cbn [ve_values]. apply evals_ok. apply enum_wf_nth. assumption. }
+  rewrite V1. cbn [bind fst snd import_ext_muxes fold_left].
+  rewrite import_nodes_ok; [|assumption|assumption|assumption|intros n Hin; apply (node_desc_ok b Hkb); assumption].
+  cbn [bind].
+  set (nd := rev (npairs (doc_cms b))). set (md := rev (mpairs (doc_cms b))). set (sd := rev (spairs (doc_cms b))).
+  set (env := mkienv nd md sd se' []).
+  set (st0 := mkistate (reg ++ new) [] []).
+  set (nodes' := mk_nodes 0 (b_nodes b) ++ [mknode dummy_node 1024 EmptyString []]).
+  assert (Hnames' : map n_name nodes' = map (fun n => clear (n_name n)) (b_nodes b) ++ [dummy_node]).
+  { unfold nodes'. rewrite map_app, mk_nodes_names. reflexivity. }
+  assert (HI0 : Inv st0).
+  { assert (Hall : forall i, 0 <= i < Z.of_nat (length (reg ++ new)) -> fresh (nth_enum (reg ++ new) i)).
+    { intros i Hi. assert (HF : Forall fresh (reg ++ new)) by (apply Forall_app; split; assumption).
+      rewrite Forall_forall in HF. apply HF. unfold nth_enum. apply nth_In. lia. }
+    split; [intros r []|]. split; intros i Hi; cbn [is_enums st0] in *; [apply (Hall i Hi)|intros _; apply (Hall i Hi)]. }
+  assert (Hwf : forall x, enum_wf (e_of (b_enums b) x)) by (intros x; apply enum_wf_nth; assumption).
+  assert (Henvm : forall m, In m (b_messages b) -> env_msg (b_enums b) env st0 m).
+  { intros m Hin. split.
+    - cbn [ie_msg_desc env]. apply (msg_desc_ok b Hkb). assumption.
+    - intros s Hs. split; [|apply Hwf]. apply (env_sig_m b (length reg) reg (reg ++ new) se' md nd Hkb Hes V1 m s Hin Hs). }
+  destruct (import_messages_m (b_enums b) env st0 (map n_name (b_nodes b)) nodes' (b_messages b) st0 [])
+    as [st' [msgs' [F1 [F2 [F3 F4]]]]]; try assumption; try reflexivity.
+  - intros r [].
+  - apply ProofsEnum.st_le_refl.
+  - intros r Hr. rewrite Hnames'. apply in_or_app. left. apply in_map_iff in Hr. destruct Hr as [n [Hr Hin]]. subst r.
+    apply in_map_iff. exists n. auto.
+  - intros r Hr Heq. apply Hdm. apply in_map_iff in Hr. destruct Hr as [n [Hr Hin]]. subst r.
+    rewrite <- Heq. apply in_map_iff. exists n. auto.
+  - cbn [app] in F1. subst env.
+    assert (Hnos : existsb (fun m => String.eqb (m_sender m) dummy_node) msgs' = false).
+    { destruct (existsb _ _) eqn:E; [|reflexivity]. apply existsb_exists in E. destruct E as [x [Hx He]].
+      destruct (Forall2_in_r _ _ _ _ F4 Hx) as [m [Hin HR]]. destruct (Rmsg_m_head _ _ _ _ _ HR) as [_ [Hs _]]. rewrite Hs in He.
+      apply String.eqb_eq in He. exfalso. apply Hdm.
+      rewrite Forall_forall in Hm. destruct (Hm m Hin) as [_ [_ [_ [_ [_ [_ [_ [_ [_ [Hsn _]]]]]]]]]].
+      apply in_map_iff in Hsn. destruct Hsn as [n [Hs' Hn']]. rewrite <- He, <- Hs'. apply in_map_iff. exists n. auto. }
+    exists (mkbus (b_name b) (b_desc b) [] (mk_nodes 0 (b_nodes b)) (is_enums st') msgs'). split.
+    { match goal with |- bind ?x ?k = _ => replace x with (@Ok (istate * list message) (st', msgs')) by (symmetry; exact F1) end.
+      cbn [bind app].
+      unfold import_attributes. cbn [d_attrdefs d_attrs d_attrvals fold_left bind].
+      cbn [b_messages b_nodes set_b_nodes]. rewrite Hnos.
+      unfold nodes'. rewrite filter_app, mk_nodes_not_dummy by assumption. cbn [filter String.eqb negb app]. rewrite app_nil_r.
+      reflexivity. }
+    unfold proj_bus. cbn [b_desc b_attrs b_nodes b_enums b_messages]. rewrite Ha.
+    f_equal.
+    + clear - Hn. revert Hn. generalize 0. generalize (b_nodes b). induction l as [|n r IH]; intros i Hf; cbn [map mk_nodes]; [reflexivity|].
+      inversion Hf as [|? ? Hna Hr]; subst. rewrite IH by assumption. f_equal.
+      unfold proj_node. cbn [n_name n_desc n_attrs]. rewrite Hna, clear_spaces_idem. reflexivity.
+    + f_equal. eapply (Forall2_map_eq (Rmsg_m (b_enums b) (mkienv nd md sd se' []) st')); [exact F4|].
+      intros m m' Hin HR. rewrite Forall_forall in Hm. eapply (proj_message_m (map n_name (b_nodes b))); [apply Hm; assumption|intros; apply Hwf| |exact HR].
+      intros s Hs. destruct (Henvm m Hin) as [_ Hsig]. destruct (Hsig s Hs) as [[Hd Hl] _]. split; [exact Hd|].
+      intros Hk. rewrite Hk in Hl. exact Hl.
+Qed.
